@@ -97,7 +97,7 @@ def run_ctx(sv, tier, a, b, res):
     if gpc is None:
         res.extra['seam_missing'] = 'util.get_pattern_context not found; layer (i) skipped, layer (ii) still checks every raised error'
         return
-    L = 6 if tier == 'quick' else 8
+    L = 7 if tier == 'quick' else 8
     pats = ['', a, a + b] if (a, b) == ('a', 'a') else [a + b]
     for n in range(0, L - 1):
         for rest in itertools.product(ALPHA, repeat=n):
@@ -447,7 +447,7 @@ def check(tier, seed):
         'rule': ('(i) all patterns <= L over {a,b,LF,CR} x all offsets; (ii) every SelectorSyntaxError over all words <= k lexemes; (iii) DEBUG vs plain '
                  'compile over words <= 3; (iv) pretty() on every selector of the grammar sets under a step budget; non-trivial = the pattern has '
                  'more than one line (i, ii), the pattern compiles (iii), every pretty-printed selector (iv); cases distinct by construction'),
-        'exhaustive': not info['cap_hit'], 'max_pattern_length': 6 if tier == 'quick' else 8, 'max_lexemes': 3 if tier == 'quick' else 4,
+        'exhaustive': not info['cap_hit'], 'max_pattern_length': 7 if tier == 'quick' else 8, 'max_lexemes': 3 if tier == 'quick' else 4,
         'seam_missing': res.extra.get('seam_missing'),
     }
     return {'result': res, 'coverage': cov, 'info': info,
